@@ -1,5 +1,6 @@
 import JediModel.Proto
 import JediModel.Model.Refs
+import JediModel.Lemmas.RefsSound
 open Lean Proto JediModel.Scopes JediModel.Refs
 
 def parseKind : Nat → Kind
@@ -25,7 +26,11 @@ def handle (j : Json) : Json :=
     let n := p.occs.length
     jobj [
       ("refs", jarr ((List.range n).map fun i => jarr ((refs p i).map jnat))),
-      ("var", jarr ((List.range n).map fun i => jnat (varOf p i)))]
+      ("var", jarr ((List.range n).map fun i => jnat (varOf p i))),
+      ("nameok", jarr ((List.range n).map fun i =>
+        match p.occs[i]? with
+        | some o => jbool (nameOkB p o.name)
+        | none => jbool false))]
   | op => jobj [("error", jstr ("unknown op " ++ op))]
 
 def main : IO Unit := Proto.run handle
